@@ -195,11 +195,12 @@ def run_select(case, ctx):
     cfg["rules"] = []
     w = World(cfg, ctx.rel)
     try:
-        build_tree(w, [n for n in case["tree"] if n["kind"] == "f"])
+        build_tree(w, case["tree"])
         r = w.cmd("sync", ["-E", "-Z"])
         if r.rc != 0:
             return Outcome(ok=True, classes=["sync refused"])
         snap = w.arr.snap_data()
+        cmodel = w.content_model()
         import random
         rnd = random.Random(case["missing"])
         missing = set()
@@ -209,6 +210,20 @@ def run_select(case, ctx):
                 if rnd.random() < 0.5:
                     os.unlink(w.full(dn, rel))
                     missing.add((dn, rel))
+        # recorded empty directories and links go missing too (on any disk: they need no parity)
+        gone_other = 0
+        for dn in w.arr.disk_names():
+            d_ = cmodel.disks.get(dn.encode()) if cmodel else None
+            for sub in (list(d_.dirs) if d_ else []):
+                p_ = w.full(dn, sub)
+                if rnd.random() < 0.5 and os.path.isdir(p_) and not os.path.islink(p_) and not os.listdir(p_):
+                    os.rmdir(p_)
+                    gone_other += 1
+            for l_ in (d_.links if d_ else []):
+                p_ = w.full(dn, l_.sub)
+                if l_.kind == "symlink" and rnd.random() < 0.5 and os.path.islink(p_):
+                    os.unlink(p_)
+                    gone_other += 1
         args = []
         frules = []
         for p in case["f"]:
@@ -248,6 +263,24 @@ def run_select(case, ctx):
                     b = post[dn].get(rel)
                     if b is None or b[1] != e[1] or b[3] != e[3]:
                         return Outcome(ok=False, why="fix %r modified %s/%r which was present and intact" % (args, dn, rel))
+        # nothing outside the selection is written: links and empty directories that fix re-created
+        only_file_patterns = bool(frules) and all(not pat.endswith(b"/") for _, pat in frules)
+        for dn in w.arr.disk_names():
+            created = [rel for rel in post[dn] if rel not in pre[dn]]
+            kept = set(rel for rel in created if post[dn][rel][0] in ("f", "l"))
+            for rel in created:
+                e = post[dn][rel]
+                if e[0] == "l":
+                    sel = (not frules or filterref.file_verdict(frules, rel) > 0) and (not dsel or dn in dsel)
+                    if not sel:
+                        return Outcome(ok=False, why="fix %r re-created the link %s/%r which the options do not select" % (args, dn, rel))
+                elif e[0] == "d":
+                    if any(k.startswith(rel + b"/") for k in kept):
+                        continue   # an ancestor of something fix restored
+                    if (dsel and dn not in dsel) or (only_file_patterns and not any(k.startswith(rel + b"/") for k in created)):
+                        return Outcome(ok=False, why="fix %r re-created the empty directory %s/%r which the options do not select" % (args, dn, rel))
+        if gone_other:
+            pass
         fp = hashlib.sha1(json.dumps(case, sort_keys=True).encode()).hexdigest()[:16]
         sample = {"options": [a if isinstance(a, str) else a.decode("latin-1") for a in args], "missing": len(missing), "selected": nsel, "unselected": nunsel}
         return Outcome(ok=True, fp=fp, nontrivial=nsel > 0 and nunsel > 0, classes=["selection " + " ".join(sorted(set(a for a in args if isinstance(a, str) and a.startswith("-"))))], sample=sample)
